@@ -172,6 +172,24 @@ func (e *Env) buildDid(op *Op, a *Actor) (*Built, string) {
 				m.UpdateAccountAuth = append(m.UpdateAccountAuth, &c)
 			}
 		}
+		if op.Mis == "foreign-remove" || op.Mis == "foreign-update" {
+			var foreign []string
+			for _, d2 := range sortedKeys(s.Did.AccountLists) {
+				if d2 != did {
+					foreign = append(foreign, s.Did.AccountLists[d2]...)
+				}
+			}
+			if len(foreign) > 0 {
+				ad := foreign[op.W%len(foreign)]
+				if op.Mis == "foreign-remove" {
+					m.RemoveAccountDid = append(m.RemoveAccountDid, ad)
+				} else {
+					au := s.Did.AccountAuths[ad]
+					c := au
+					m.UpdateAccountAuth = append(m.UpdateAccountAuth, &c)
+				}
+			}
+		}
 		return &Built{Msgs: []sdk.Msg{m}, Signer: a, Info: fmt.Sprintf("did=%s remove=%d keep=%d", short(root), len(m.RemoveAccountDid), len(m.UpdateAccountAuth))}, ""
 	case "sid_payaddr":
 		owner := e.ref(op.To, a)
